@@ -176,8 +176,10 @@ Definition req_handle (typ mid : Z) (tok : list Z) (reqopts : opts_t) (b : behav
   end.
 
 (* handleReq: addResponseToCache *)
+Definition store_reply (mid : Z) (store : bool) (r : option wire) (c : list (Z * entry)) : list (Z * entry) :=
+  if store then match r with Some w => cache_store c mid w | None => c end else c.
 Definition req_store (mid : Z) (h : hdl) (c : list (Z * entry)) : list (Z * entry) :=
-  if hd_store h then match hd_reply h with Some r => cache_store c mid r | None => c end else c.
+  store_reply mid (hd_store h) (hd_reply h) c.
 
 (* ProcessReceivedMessageWithHandler: writeMessageAsync evaluates cc.GetMessageID() for UpsertMessageID
    even when the ID is already set; nothing is written (or drawn) for an unmodified message *)
